@@ -239,9 +239,7 @@ type flat struct {
 	pks      []types.PublicKey
 	hashes   []types.Hash256
 	total    int
-	// spans of the revealed direct children of the root threshold (for the
-	// opaqued-branch law): number of pk / hash leaves below each child.
-	hasUC bool
+	hasUC    bool
 }
 
 func flattenInto(f *flat, p types.SpendPolicy, e env, top bool) {
@@ -325,9 +323,9 @@ func existsMatching(keys []types.UnlockKey, sigs []types.Signature, need uint64,
 	return can[0][0]
 }
 
-// entropyReached: would an in-order walk still need a signature when it comes
-// to an entropy key? (the statement is silent on entropy keys; the library
-// documents that it refuses them. Used only to classify, see checkCase.)
+// hasEntropy: the statement is silent on entropy keys; the library documents
+// that it refuses them. Used only to classify a difference between the two
+// formulations of the oracle, see checkCase.
 func hasEntropy(keys []types.UnlockKey) bool {
 	for _, k := range keys {
 		if k.Algorithm == types.SpecifierEntropy {
